@@ -310,9 +310,12 @@ def table():
             lambda n, a, b, la, s=sfx:
                 getattr(n, "cross_transitivity" + s)(a, b),
             lambda G, a, b, D: ref.cross_transitivity(G.A, a, b))
+    # (on a directed network the local clustering is that of the network
+    #  with reciprocated links collapsed - Network.local_clustering)
     add("internal_global_clustering", 1,
         lambda n, a, b, la: n.internal_global_clustering(a),
-        lambda G, a, b, D: ref.internal_global_clustering(G.A, a))
+        lambda G, a, b, D: ref.internal_global_clustering(
+            ((G.A + G.A.T) > 0).astype(G.A.dtype), a), "d")
     # ---- path based
     add("cross_average_path_length", 2,
         lambda n, a, b, la: n.cross_average_path_length(a, b, la),
@@ -737,8 +740,21 @@ def nsi_apl(ctx, c):
 # whole-node-set limits
 # --------------------------------------------------------------------------
 def whole_set(ctx, G, cid):
+    N = G.N
+    _whole_set(ctx, G, cid, list(range(N)))
+    if N > 1:
+        # all nodes, listed in another order: per-node and per-pair results
+        # follow the list
+        rp = ctx.rng("wholeperm", cid)
+        pl = [int(v) for v in rp.permutation(N)]
+        if pl == list(range(N)):
+            pl = pl[::-1]
+        ctx.count("whole_set_in_other_order")
+        _whole_set(ctx, G, cid, pl)
+
+
+def _whole_set(ctx, G, cid, al):
     net, N = G.net, G.N
-    al = list(range(N))
     und = not G.directed
     conn = bool(np.all(np.isfinite(G.D)))
     joined = bool(np.isfinite(G.D[~np.eye(N, dtype=bool)]).any()) if N > 1 \
@@ -765,6 +781,9 @@ def whole_set(ctx, G, cid):
         lambda: net.degree(LW), True)
     add("number_internal_links", lambda: net.number_internal_links(al),
         lambda: net.n_links)
+    add("internal_global_clustering",
+        lambda: net.internal_global_clustering(al),
+        lambda: net.global_clustering())
     if N > 1:
         add("internal_link_density", lambda: net.internal_link_density(al),
             lambda: net.link_density)
@@ -825,6 +844,15 @@ def whole_set(ctx, G, cid):
             ctx.count("rejected")
             continue
         ctx.count("whole_set_compared")
+        if ok1 and al != list(range(N)):
+            # the single-network result in the order of the list; node
+            # betweenness-type results are indexed by node, not by list
+            v2 = np.asarray(v2)
+            if v2.ndim == 2 and v2.shape == (N, N):
+                v2 = v2[np.ix_(al, al)]
+            elif v2.ndim == 1 and v2.shape == (N,) and \
+                    "betweenness" not in m:
+                v2 = v2[al]
         if not ok1:
             ctx.violation(f"{m}:raises:{type(v1).__name__}:whole-node-set",
                           {**G.detail(), "exc": repr(v1)}, cid)
